@@ -75,6 +75,11 @@ type iterState struct {
 	desc   bool
 	start, end []byte
 	yieldedUntouched int
+	snapVal map[string][]byte // full key -> value at open
+	yielded map[string]bool
+	keysReadEveryStep bool // the program read Key() at every position so far (needed to know what was yielded)
+	readThisPos bool
+	curKey  []byte            // key last read at the current position (weak rule pairs Key and Value)
 }
 
 type exec struct {
@@ -531,6 +536,7 @@ func (e *exec) do(op *Op) {
 			if apply {
 				ms.set(key, val)
 				e.noteWrite(op.N, op.Sub, key)
+				e.recordViews()
 			}
 		case "del":
 			if led != nil {
@@ -546,6 +552,7 @@ func (e *exec) do(op *Op) {
 			if apply {
 				ms.del(key)
 				e.noteWrite(op.N, op.Sub, key)
+				e.recordViews()
 			}
 		}
 		// ---- the real call
@@ -604,6 +611,7 @@ func (e *exec) do(op *Op) {
 			for _, k := range touched {
 				e.noteWrite(nd.Parent, 0, k)
 			}
+			e.recordViews()
 			var p string
 			func() {
 				defer func() {
@@ -709,24 +717,72 @@ func (e *exec) iterOpen(op *Op, prop string) {
 		e.checkGas(op.N)
 		return
 	}
-	e.iters[op.It] = &iterState{real: it, node: op.N, sub: op.Sub, snap: snap, desc: op.Desc, start: start, end: end,
-		touch: map[string]bool{}, hist: map[string][][]byte{}}
+	is := &iterState{real: it, node: op.N, sub: op.Sub, snap: snap, desc: op.Desc, start: start, end: end,
+		touch: map[string]bool{}, hist: map[string][][]byte{}, snapVal: map[string][]byte{}, keysReadEveryStep: true}
+	for _, kvp := range snap {
+		is.snapVal[e.fullKey(op.N, op.Sub, kvp.k)] = kvp.v
+	}
+	e.iters[op.It] = is
 	if len(snap) == 0 {
 		e.res.Stats.Probe("empty_range_iterator")
 	}
 	e.checkGas(op.N)
 }
 
-// noteWrite records that key k (in node n's key space) changed: open iterators whose view can see it
-// fall under the weaker rule for that key.
+// fullKey maps key k of node n (substore sub of a multi node) to the key space of the base store.
+func (e *exec) fullKey(n, sub int, k []byte) string {
+	if e.tr.Nodes[n].Kind == "multi" {
+		return fmt.Sprintf("m%d.%d:", n, sub) + string(k)
+	}
+	key := append([]byte{}, k...)
+	root := n
+	for y := n; y >= 0; y = e.tr.Nodes[y].Parent {
+		if e.tr.Nodes[y].Kind == "prefix" {
+			p, _ := hex.DecodeString(e.tr.Nodes[y].Prefix)
+			key = append(append([]byte{}, p...), key...)
+		}
+		root = y
+	}
+	return fmt.Sprintf("b%d:", root) + string(key)
+}
+
+// noteWrite: key k (in node n's key space) changed while iterators are open. An iterator that can see
+// that key falls under the two-sided rule for it: whatever it yields for the key must be a value its
+// store's view held at some moment between open and yield; keys nobody touched are held to the snapshot.
 func (e *exec) noteWrite(n, sub int, k []byte) {
+	fk := e.fullKey(n, sub, k)
 	for _, it := range e.iters {
 		if it.closed {
 			continue
 		}
 		it.weak = true
+		it.touch[fk] = true
 	}
 	e.res.Stats.C("writes", 1)
+}
+
+// recordViews is called after every write: for every touched key of every open iterator it records the
+// value the iterator's store shows for it now.
+func (e *exec) recordViews() {
+	for _, it := range e.iters {
+		if it.closed || len(it.touch) == 0 {
+			continue
+		}
+		var ms mNode
+		if e.tr.Nodes[it.node].Kind == "multi" {
+			ms = e.mcaches[it.node][it.sub%len(e.mcaches[it.node])]
+		} else {
+			ms = e.model[it.node]
+		}
+		seen := map[string]bool{}
+		for _, kvp := range ms.view() {
+			fk := e.fullKey(it.node, it.sub, kvp.k)
+			if it.touch[fk] {
+				it.hist[fk] = append(it.hist[fk], append([]byte{}, kvp.v...))
+				seen[fk] = true
+			}
+		}
+	}
 }
 
 func (e *exec) markAllWeak() {
@@ -834,7 +890,35 @@ func (e *exec) iterOp(op *Op, prop string) {
 			}
 			return
 		}
-		// weak rule (a write happened while the iterator was open): sorted, inside the range, no duplicates
+		// two-sided rule (a write happened while the iterator was open)
+		if op.K == "ikey" {
+			it.curKey = append([]byte{}, b...)
+			if it.yielded == nil {
+				it.yielded = map[string]bool{}
+			}
+			it.yielded[e.fullKey(n, it.sub, b)] = true
+			it.readThisPos = true
+		}
+		if op.K == "ival" && it.curKey != nil {
+			fk := e.fullKey(n, it.sub, it.curKey)
+			ok := false
+			if sv, has := it.snapVal[fk]; has && bytes.Equal(sv, b) {
+				ok = true
+			}
+			for _, hv := range it.hist[fk] {
+				if bytes.Equal(hv, b) {
+					ok = true
+				}
+			}
+			if !ok {
+				mism("value-never-held", "iterator %d on %s yields %X=%X; its store never showed that value for the key between open and now (touched=%v)", op.It, e.stackOf(n), it.curKey, b, it.touch[fk])
+			}
+			if !it.touch[fk] {
+				if _, has := it.snapVal[fk]; !has {
+					mism("untouched-key-not-in-snapshot", "iterator %d on %s yields key %X which nobody wrote since it was opened and which was not in the overlay then", op.It, e.stackOf(n), it.curKey)
+				}
+			}
+		}
 		if op.K == "ikey" {
 			if !inRange(b, it.start, it.end) {
 				mism("range", "iterator yields key %X outside its range [%X,%X)", b, it.start, it.end)
@@ -855,6 +939,15 @@ func (e *exec) iterOp(op *Op, prop string) {
 		if !valid {
 			if !it.weak && modelValid {
 				mism("valid", "iterator %d on %s ended at position %d of %d", op.It, e.stackOf(n), it.pos, len(it.snap))
+			}
+			if it.weak && it.keysReadEveryStep {
+				// exhausted: every key of the snapshot that nobody touched must have been yielded
+				for fk := range it.snapVal {
+					if !it.touch[fk] && !it.yielded[fk] {
+						mism("untouched-key-skipped", "iterator %d on %s ended without yielding an untouched key that was in the overlay when it was opened", op.It, e.stackOf(n))
+						break
+					}
+				}
 			}
 			return
 		}
@@ -895,6 +988,11 @@ func (e *exec) iterOp(op *Op, prop string) {
 		}
 		if p == "" {
 			it.pos++
+			it.curKey = nil
+			if !it.readThisPos {
+				it.keysReadEveryStep = false
+			}
+			it.readThisPos = false
 		} else {
 			e.res.Stats.Probe("expected_panic:" + p)
 		}
